@@ -103,9 +103,10 @@ def main(argv=None):
             for R in pool.imap_unordered(_worker, jobs, chunksize=1):
                 results.append(R)
                 if a.v:
-                    print('  job %-60s paths=%-5s obl=%-6s viol=%d inc=%d %.1fs' % (
+                    print('  job %-60s paths=%-5s obl=%-6s viol=%d inc=%d q=%s %.1fs %s' % (
                         str(R.get('harness'))[:60], R.get('paths'), R.get('obligations'),
-                        len(R['violations']), len(R['inconclusive']), R.get('wall_s', 0)), flush=True)
+                        len(R['violations']), len(R['inconclusive']), (R.get('stats') or {}).get('queries'),
+                        R.get('wall_s', 0), R.get('robust_families') or ''), flush=True)
     results.sort(key=lambda r: repr(r.get('spec')))
     return finish(mod, pid, tier, seed, results, t0, a)
 
